@@ -64,10 +64,17 @@ def forms(pid, rng):
         for nargs in (0, 4):
             m = rpc.call(rng.getrandbits(32), 100000, 2, 3, args=rb(nargs))
             out.append((m, {0, 1, 2, 3, 15, 16, 17, 18, 19, 23}))
+        # AUTH_SYS credentials as every real client sends them (stamp, machine name, uid, gid, gids), AUTH_SHORT verifier
+        cred = struct.pack("!I", rng.getrandbits(32)) + rpc.xdr_string(b"scanner") + struct.pack("!III", 0, 0, 0)
+        out.append((rpc.call(rng.getrandbits(32), 100000, 2, 4, cred=cred, cred_flavor=1), {0, 1, 2, 3, 15, 16, 17, 18, 19, 23}))
+        out.append((rpc.call(rng.getrandbits(32), 100000, 3, 0, cred=cred, cred_flavor=1, verf=rb(8), verf_flavor=2), {0, 1, 2, 3, 15, 16, 17, 18, 19, 23}))
     elif pid == RPC_TCP:
         for nargs in (0, 4, 8, 0x100 - 40):
             m = rpc.record(rpc.call(rng.getrandbits(32), 100000, 2, 3, args=rb(nargs)))
             out.append((m, {4, 5, 6, 7, 19, 20, 21, 22, 23, 27}))
+        cred = struct.pack("!I", rng.getrandbits(32)) + rpc.xdr_string(b"scanner") + struct.pack("!III", 0, 0, 0)
+        out.append((rpc.record(rpc.call(rng.getrandbits(32), 100000, 2, 4, cred=cred, cred_flavor=1)), {4, 5, 6, 7, 19, 20, 21, 22, 23, 27}))
+        out.append((rpc.record(rpc.call(rng.getrandbits(32), 100000, 4, 0, cred=rb(4), cred_flavor=1, verf=rb(12), verf_flavor=2)), {4, 5, 6, 7, 19, 20, 21, 22, 23, 27}))
     elif pid in (SMB1, SMB2):
         for n in (1, 2, 3, 5, 9):
             if pid == SMB1:
@@ -127,11 +134,12 @@ class Lab:
     def __init__(self, ctx, cfg):
         self.ctx, self.cfg = ctx, cfg
 
-    def ask(self, payload, transport, v6=None):
+    def ask(self, payload, transport, v6=None, sp=None, dp=None):
         rng = self.ctx.rng
         v6 = rng.random() < 0.5 if v6 is None else v6
         e = gen.endp(rng, self.cfg, v6)
-        sp, dp = gen.rnd_port(rng), gen.rnd_port(rng)
+        sp = gen.rnd_port(rng) if sp is None else sp
+        dp = gen.rnd_port(rng) if dp is None else dp
         if transport == "udp":
             return app_payload(self.ctx.send(e.udp(sp, dp, payload)))
         f = Flow(self.ctx, e, sp, dp)
@@ -301,7 +309,9 @@ def shard(ctx, budget_s, learn):
         for pidk, mask in comp.items():
             end = isinstance(pidk, tuple)
             pid = pidk[1] if end else pidk
-            for full, free in forms(pid, rng):
+            fs = forms(pid, rng)
+            rng.shuffle(fs)         # every form gets its turn as the witness of some node
+            for full, free in fs:
                 if len(full) < n.pos + (0 if end else 1):
                     continue
                 t = template_of(full, free)
@@ -365,9 +375,27 @@ def shard(ctx, budget_s, learn):
                                   len(pre), sigref.NAMES[pid], cuts, rep[:16].hex()), observed=rep.hex()[:200], expected="bare ACKs only",
                               extra={"stream": stream.hex()[:600], "cuts": cuts})
                 break
+    # ---- the decision does not depend on ports or addresses: corner port pairs x both IP versions, every protocol and transport ----
+    real = sigref.RealMatcher(ctx)
+    for pid in (HTTP, SSH, GHOST, STUN, RPC_TCP, RPC_UDP, SMB1, SMB2):
+        fs = forms(pid, rng)
+        rng.shuffle(fs)
+        for tr in transports(pid):
+            wit = next((full for full, _free in fs if sigref.identify(full, tr == "udp") == pid and real.identify(full, tr == "udp") == pid), None)
+            if wit is None:
+                continue
+            x = rng.randrange(1024, 65535)
+            for sp, dp in ((0, x), (x, 0), (0, 0), (65535, 65535), (1, 1), (x, x), (x, 65535), (65535, x)):
+                for v6 in (False, True):
+                    rep = lab.ask(wit, tr, v6=v6, sp=sp, dp=dp)
+                    ctx.stats["endpoint_witnesses"] += 1
+                    ctx.nontrivial("endpoint", pid, tr, sp == 0, dp == 0, sp == dp, v6)
+                    if not is_response_of(pid, rep):
+                        ctx.violation("witness_not_answered:%s:%s:ports" % (sigref.NAMES[pid], tr),
+                                      "complete valid %s request is not answered by its responder over %s/IPv%d from port %d to port %d (got %s)" % (
+                                          sigref.NAMES[pid], tr, 6 if v6 else 4, sp, dp, "nothing" if not rep else rep[:16].hex()), observed=wit.hex(), expected=sigref.NAMES[pid])
     # ---- segmentation / address independence of the decision ----------------------------------------------------------------
     deadline = time.time() + budget_s
-    real = sigref.RealMatcher(ctx)
     def more_witnesses():
         out = []
         for pid in (HTTP, SSH, GHOST, STUN, RPC_TCP, SMB1, SMB2):
